@@ -1,8 +1,7 @@
 // U-AIR: src/air.rs + the value types of src/symbol.rs  (properties C01 C04 C05 C07)
 #![allow(unused)]
 use vstd::prelude::*;
-mod shim { pub struct Report; }
-use shim::Report;
+//@include shim.rs
 
 mod bv {
 use vstd::prelude::*;
